@@ -29,7 +29,8 @@ def entry_ends(doc):
     return [m.end() for m in re.finditer(r"</item>|</entry>", doc)]
 
 
-DAMAGE = ["truncate", "unclosed", "mismatch", "stray-lt", "stray-amp", "undefined-entity", "garbage", "entity-between", "nul", "bad-attr", "stray-entry-end"]
+DAMAGE = ["truncate", "unclosed", "mismatch", "stray-lt", "stray-amp", "undefined-entity", "garbage", "entity-between", "nul", "bad-attr", "stray-entry-end", "garbage-bytes"]
+GARBAGE_BYTES = b"\x9d\xff\xfe\x81 garbage"          # not decodable as UTF-8: appended at the byte level
 
 
 def damage(rng, doc, pos, kind):
@@ -37,6 +38,8 @@ def damage(rng, doc, pos, kind):
     if kind == "truncate":
         cut = pos + rng.randrange(0, max(1, len(tail)))
         return doc[:cut]
+    if kind == "garbage-bytes":
+        return doc                       # the bytes are appended by deliver(): they are not text
     if kind == "garbage":
         return doc + rng.choice(["\x01\x02garbage", "<<<>>>", "trailing text &", "</rss></rss>", "<item><title>ghost"])
     if kind == "stray-entry-end":
@@ -56,15 +59,21 @@ def damage(rng, doc, pos, kind):
     return doc[:ins] + piece + doc[ins:]
 
 
-FORMS = ["bytes", "bytesio", "str", "stringio"]
+FORMS = ["bytes", "bytesio", "str", "stringio", "bytesio-offset"]
+# bytesio-offset: the caller's stream holds ANOTHER complete feed before the document and is positioned at the document's first byte
+PRECEDING = b'<rss version="2.0"><channel><title>another feed</title><item><title>alpha 0</title><guid>urn:alpha:0</guid></item><item><title>alpha 1</title><guid>urn:alpha:1</guid></item></channel></rss>\n'
 CJK = ["中文标题", "日本語のテキスト", "한국어 텍스트", "plain", "über naïve café", "标题 two", "x"]
 
 
-def deliver(doc, form):
+def deliver(doc, form, tail=b""):
     if form == "bytes":
-        return doc.encode("utf-8")
+        return doc.encode("utf-8") + tail
     if form == "bytesio":
-        return io.BytesIO(doc.encode("utf-8"))
+        return io.BytesIO(doc.encode("utf-8") + tail)
+    if form == "bytesio-offset":
+        f = io.BytesIO(PRECEDING + doc.encode("utf-8") + tail)
+        f.seek(len(PRECEDING))
+        return f
     if form == "str":
         return doc
     return io.StringIO(doc)
@@ -84,6 +93,33 @@ def loose_entries(doc):
     return [plain(e) for e in r.entries]
 
 
+_C1 = {c: (bytes([c]).decode("cp1252", "ignore") or chr(c)) for c in range(0x80, 0xA0)}
+
+
+def redecoded_equal(ref, got, enc):
+    """got is ref with every string s re-read as s.encode('utf-8').decode(enc) (values that went through pop() additionally have their C1 controls
+    replaced by the windows-1252 look-alikes, like every value)"""
+    if not enc or enc.lower().replace("_", "-") in ("utf-8", "utf8"):
+        return False
+
+    def eq(a, b):
+        if isinstance(a, str) and isinstance(b, str):
+            try:
+                t = a.encode("utf-8").decode(enc)
+            except (UnicodeError, LookupError):
+                return False
+            return b == t or b == t.translate(_C1)
+        if isinstance(a, dict) and isinstance(b, dict):
+            return set(a) == set(b) and all(eq(a[k], b[k]) for k in a)
+        if isinstance(a, list) and isinstance(b, list):
+            return len(a) == len(b) and all(eq(x, y) for x, y in zip(a, b))
+        return a == b
+    try:
+        return eq(ref, got)
+    except Exception:
+        return False
+
+
 def check_case(doc, damaged, k, kind, form):
     import feedparser
     w = {"doc": doc, "damaged": damaged, "k": k, "kind": kind, "form": form}
@@ -91,7 +127,7 @@ def check_case(doc, damaged, k, kind, form):
     with warnings.catch_warnings():
         warnings.simplefilter("ignore")
         try:
-            r = feedparser.parse(deliver(damaged, form))
+            r = feedparser.parse(deliver(damaged, form, GARBAGE_BYTES if kind == "garbage-bytes" else b""))
         except Exception as e:
             return [Finding(("raises", type(e).__name__, kind), w, "parse() of a document damaged after entry %d (%s, delivered as %s) raises %s: %s" % (k, kind, form, type(e).__name__, e))]
     # is the damaged document still well-formed? (some insertions are harmless) -- then nothing is claimed about bozo
@@ -99,14 +135,19 @@ def check_case(doc, damaged, k, kind, form):
     wf = True
     try:
         p = xml.parsers.expat.ParserCreate(namespace_separator=" ")
-        p.Parse(damaged.encode("utf-8"), True)
+        p.Parse(damaged.encode("utf-8") + (GARBAGE_BYTES if kind == "garbage-bytes" else b""), True)
     except xml.parsers.expat.ExpatError:
         wf = False
     fs = []
     if not wf and not r.bozo:
         fs.append(Finding(("bozo-unset", kind), w, "document damaged after entry %d (%s) parses with bozo unset" % (k, kind)))
     got = [plain(e) for e in r.entries[:k]]
-    if not wf and got != ref:
+    if not wf and got != ref and kind == "garbage-bytes" and redecoded_equal(ref, got, r.get("encoding")):
+        # identified by what it produces: the SAME entries, every string re-read under the single-byte encoding the whole document was decoded with
+        # after the undecodable tail made the utf-8 reading fail
+        fs.append(Finding(("entries-redecoded", kind), w, "document damaged after entry %d by appended bytes that are not UTF-8 (delivered as %s): the whole document -- the %d complete entries "
+                          "included -- is decoded as %s, so their non-ASCII text comes back as mojibake" % (k, form, k, r.get("encoding")), observed=got[:1], expected=ref[:1]))
+    elif not wf and got != ref:
         n = len(r.entries)
         which = next((i for i in range(min(len(got), len(ref))) if got[i] != ref[i]), min(len(got), len(ref)))
         fs.append(Finding(("entries-lost" if len(got) < len(ref) else "entries-changed", kind, "text" if form in ("str", "stringio") else "binary"), w,
@@ -168,14 +209,19 @@ def search(ctx, focus=None):
                                     pad_reps=rng.choice([300, 700, 1500, 4000]), texts=CJK)
         elif r < 0.4:
             doc = feedgen.vocab_doc(rng, fmt=rng.choice(["rss20", "atom10"]), nentries=rng.randint(2, 6), meta_between=True)
+        elif r < 0.5:
+            # texts with CRLF line ends / tabs (the two back ends normalise them differently: what comes back must be the FALLBACK parser's reading)
+            doc = feedgen.vocab_doc(rng, nentries=rng.randint(2, 5), texts=feedgen.PLAIN + ["first line\r\nsecond line", "a\r\nb\r\nc", "tab\there\r\n"])
         else:
-            doc = feedgen.vocab_doc(rng, nentries=rng.randint(2, 6) if not big else rng.randint(3, 5), big=big)
+            doc = feedgen.vocab_doc(rng, nentries=rng.randint(2, 6) if not big else rng.randint(3, 5), big=big, pad_reps=rng.choice([1200, 1200, 3500]))
         ends = entry_ends(doc)
         for k, pos in enumerate(ends, 1):
             if rng.random() < (0.4 if ctx.thorough else 0.75) and len(ends) > 2:
                 continue
             for kind in (DAMAGE if ctx.thorough else rng.sample(DAMAGE, 4)):
-                form = rng.choice(FORMS) if not big else rng.choice(["str", "stringio", "bytes"])
+                form = rng.choice(FORMS) if not big else rng.choice(["str", "stringio", "bytes", "bytesio-offset", "bytesio"])
+                if kind == "garbage-bytes" and form in ("str", "stringio"):
+                    form = rng.choice(["bytes", "bytesio", "bytesio-offset"])
                 dm = damage(rng, doc, pos, kind)
                 n += 1
                 distinct.add((dm, form))
@@ -185,13 +231,19 @@ def search(ctx, focus=None):
             "rule": "well-formed reference-free feeds (RSS 2.0 / RSS 1.0 / Atom 1.0 over core + dc/dcterms/itunes/media/georss/content/slash/wfw/unknown extension "
                     "elements, 2-6 entries, a quarter of them padded beyond the 8 KiB / 64 KiB prefix sizes; a fifth with CJK / accented text and padding so that character and byte offsets "
                     "drift apart; a fifth with feed-level metadata between and after the entries) x every k x damage kinds {an unmatched entry end tag directly after the k-th entry, truncate, unclosed tag, mismatched "
-                    "end tag, stray <, stray &, undefined entity in text, entity reference directly after the k-th end tag, garbage appended, NUL, duplicate attribute} "
-                    "at random positions after the k-th entry x delivery {bytes, BytesIO, str, StringIO}; oracle: bozo set (when expat rejects the damaged document) "
+                    "end tag, stray <, stray &, undefined entity in text, entity reference directly after the k-th end tag, garbage appended (text, or bytes that are not UTF-8), NUL, duplicate attribute} "
+                    "at random positions after the k-th entry x delivery {bytes, BytesIO, str, StringIO, a BytesIO positioned at the document after ANOTHER feed}; oracle: bozo set (when expat rejects the damaged document) "
                     "and entries[:k] equal to the loose-mode result of the undamaged document; distinct = distinct (damaged document, delivery form)",
             "samples": [{"kind": "mismatch", "k": 1}]}
 
 
 def replay(w):
+    if w.get("construct") == "redecoded":
+        doc = ('<rss version="2.0"><channel><title>t</title><item><title>caf\u00e9 \u4e2d\u6587</title><guid>urn:1</guid></item>'
+               '<item><title>second</title><guid>urn:2</guid></item></channel></rss>')
+        fs = check_case(doc, doc, 2, "garbage-bytes", "bytes")
+        fs = [f for f in fs if f.key[0] == "entries-redecoded"]
+        return (bool(fs), fs[0].what if fs else "entries before the appended bytes keep their text")
     fs = check_case(w["doc"], w["damaged"], w["k"], w["kind"], w["form"])
     return (bool(fs), fs[0].what if fs else "bozo set and the first k entries preserved")
 
